@@ -6,7 +6,7 @@ import json, os, re, subprocess, sys, time, random, shutil, hashlib
 VERIF = os.path.dirname(os.path.dirname(os.path.abspath(__file__)))
 SPEC = os.path.join(VERIF, "spec")
 HARNESS = os.path.join(VERIF, "harness")
-WORK = os.path.join(VERIF, "work")
+WORK = os.environ.get("VERIF_WORK", os.path.join(VERIF, "work"))
 EVID = os.path.join(VERIF, "evidence")
 BIN = os.path.join(HARNESS, "target", "debug")
 TLA_JAR = "/opt/veriftools/tla/tla2tools.jar"
@@ -225,9 +225,9 @@ def finish(prop, tier, level, coverage, assumptions, t0, known, new, replay_dir=
     for key, (k, info) in known.items():
         log("KNOWN-FINDING: property=%s %s [%s]" % (prop, k.get("what", ""), key))
     rc = 0
-    shutil.rmtree(os.path.join(VERIF, "work", "violations", prop), ignore_errors=True)
+    shutil.rmtree(os.path.join(WORK, "violations", prop), ignore_errors=True)
     if new:
-        d = os.path.join(VERIF, "work", "violations", prop)
+        d = os.path.join(WORK, "violations", prop)
         os.makedirs(d, exist_ok=True)
         for i, (key, info) in enumerate(sorted(new.items())):
             h = hashlib.sha1(key.encode()).hexdigest()[:10]
